@@ -615,7 +615,7 @@ func (fr *Frame) execInstr(b *ssa.BasicBlock, idx int, ins ssa.Instruction, st *
 		fr.callSiteSpecs(b, idx, ins, nil, nil, st, reach)
 		u.note("channel send in %s not modelled", fr.fn.Name())
 	case *ssa.Select:
-		fr.callSiteSpecs(b, idx, ins, nil, nil, st, reach)
+		fr.callSiteSpecs(b, idx, ins, nil, ins, st, reach) // res(chanselect, n, 0) is the index of the case taken
 		// a select only communicates over channels: no heap effect in the sequential model, results unconstrained
 		u.note("select in %s: which case runs and what is received is unconstrained (channel contents are not modelled)", fr.fn.Name())
 		fr.vals[ins] = fr.freshVal(ins.Type(), fr.prefix+ins.Name())
